@@ -594,6 +594,7 @@ func oracle(obs []event, threads map[int]*thread, injs []*injection, dumps []str
 }
 
 func evalTrace(c *core.Ctx, line string) *core.Case {
+	defer core.Tick() // liveness for the stall watchdog: traces run for seconds before their cases are added
 	scn := ""
 	for _, f := range strings.Fields(line) {
 		if strings.HasPrefix(f, "scn=") {
